@@ -14,7 +14,7 @@ func init() {
 	runners["C07"] = func(seed int64, tier, out string) { runQueryProp("C07", seed, tier, out) }
 }
 
-const qHeader = "From Coq Require Import ZArith NArith List Floats.\nRequire Import Csvq.Model.Base Csvq.Model.Value Csvq.Model.Compare Csvq.Model.Arith Csvq.Model.Expr Csvq.Model.Key Csvq.Model.SortVal Csvq.Model.Query Csvq.Harness.HQuery.\nOpen Scope list_scope.\n"
+const qHeader = "From Coq Require Import ZArith NArith List Floats.\nRequire Import Csvq.Model.Base Csvq.Model.Value Csvq.Model.Compare Csvq.Model.Arith Csvq.Model.Expr Csvq.Model.Key Csvq.Model.SortVal Csvq.Model.Query Csvq.Model.Using Csvq.Harness.HQuery.\nOpen Scope list_scope.\n"
 
 type queryShard struct {
 	defs  []string
